@@ -58,6 +58,7 @@ def directed(ctx, case, g):
                      dict(op='validate', doc={'a': 5}, update=False, normalize=True, schema_raw=wrap, schema_acc=None)])
     for ops in pats:
         try:
+            real.clear_global_state()
             real.Validator.clear_caches()
             v = real.make_validator(case)
             for op in ops[:-1]:
@@ -79,6 +80,42 @@ def directed(ctx, case, g):
                       ops=[{k: (codec.enc_val(x) if k == 'doc' else x) for k, x in op.items()} for op in ops])
             ctx.fail('C07 oracle: probe on the used instance differs from the same call on a fresh instance', jc,
                      detail={'used': repr(o)[:1500], 'fresh': repr(of)[:1500], 'history': 'directed'})
+            return
+
+
+def rejected_then_probe(ctx):
+    """a per-call schema that is rejected (a rules set that refers to itself and is malformed elsewhere) must not make a
+    later per-call schema — a part of the rejected definition — acceptable on the used instance"""
+    from cerberus import Validator, SchemaError, rules_set_registry
+    node = {'type': 'dict', 'schema': {'child': 'node7'}, 'required': 'yes'}
+    probes = [{'x': {'type': 'dict', 'schema': {'child': 'node7'}}},
+              {'y': {'type': 'list', 'schema': {'type': 'dict', 'schema': {'child': 'node7'}}}}]
+
+    def run(history, probe):
+        real.clear_global_state()
+        try:
+            rules_set_registry.add('node7', copy.deepcopy(node))
+            v = Validator()
+            for doc, sch in history:
+                try:
+                    v.validate(copy.deepcopy(doc), copy.deepcopy(sch))
+                except Exception:
+                    pass
+            try:
+                return ('returned', v.validate({}, copy.deepcopy(probe)))
+            except SchemaError:
+                return ('SchemaError',)
+            except Exception as e:
+                return ('raised', type(e).__name__)
+        finally:
+            real.clear_global_state()
+    for probe in probes:
+        fresh = run([], probe)
+        used = run([({}, {'root': 'node7'})], probe)
+        ctx.dist('directed_histories', 'rejected per-call schema, then a part of it')
+        if fresh != used:
+            ctx.fail('C07 oracle: probe with a per-call schema on an instance that was given a rejected per-call schema before: %r; '
+                     'on a fresh instance: %r' % (used, fresh), {'history': 'rejected_then_probe', 'probe': repr(probe), 'rules_set': repr(node)})
             return
 
 
@@ -165,6 +202,7 @@ def run(ctx, n):
                        'non-trivial = history of >= 2 calls; distinct by canonical (case, history)')
     hist = 40 if ctx.tier == 'thorough' else 12
     profiles = ['mixed', 'normalize', 'validate', 'of']
+    rejected_then_probe(ctx)
     with Driver() as drv:
         for i, prof, case, g in cases.stream(ctx.seed, n, profiles):
             one(ctx, drv, i, prof, case, hist, g)
